@@ -197,6 +197,43 @@ func (r *EngineRunner) execLock(f []string) string {
 			return "err close " + EngErr(err)
 		}
 		return "ok"
+	case "openopts":
+		// E openopts <kind>: Open with a configuration that checkOptions rejects; it must fail before it touches the
+		// directory or its lock - whether or not the directory is open here
+		o := kv.DefaultOptions
+		o.DirPath = r.dir()
+		switch f[2] {
+		case "dirpath":
+			o.DirPath = ""
+		case "fsize0":
+			o.DataFileSize = 0
+		case "fsizeneg":
+			o.DataFileSize = -5
+		case "ratio":
+			o.DataFileMergeRatio = 1.5
+		case "rationeg":
+			o.DataFileMergeRatio = -0.1
+		case "bps":
+			o.BytesPerSync = 16*1024*1024 + 1
+		case "thresh0":
+			o.SyncStrategy, o.BytesPerSync = kv.Threshold, 0
+		}
+		before := r.lockSnapshot()
+		_, statErr := os.Stat(r.dir())
+		dbx, err := kv.Open(o)
+		if err == nil {
+			r.fail("C16", "Open accepted a configuration that checkOptions must reject (%s)", f[2])
+			_ = dbx.Close()
+			return "ok"
+		}
+		if _, e2 := os.Stat(r.dir()); (statErr == nil) != (e2 == nil) || before != r.lockSnapshot() {
+			r.fail("C16", "an Open rejected for its configuration (%s) changed the directory", f[2])
+		}
+		if EngErr(err) == "inuse" {
+			r.fail("C16", "an Open with a rejected configuration (%s) tried the directory lock before it checked the configuration", f[2])
+			return "err inuse"
+		}
+		return "err options"
 	case "openbad":
 		// a garbage data file with the highest id makes the scan fail with a checksum error
 		bad := filepath.Join(r.dir(), "000099999.data")
